@@ -718,6 +718,9 @@ func Catalogue() map[string]Script {
 		fin(0, true), fin(1, true), fin(2, false), res(5), fin(4, true))
 	mk("smaller-real-limit", 3, 2, res(0), res(1), res(2), st(0), st(1), st(2), dial(true), rr(0), rr(1), rr(2), fin(0, true), fin(1, true))
 	mk("late-waits-for-early", 2, 4, res(0), res(1), st(0), dial(true), bg(2), st(1), rr(0), rr(1), fin(0, true), fin(1, true), fin(2, true))
+	// with equal limits a newcomer must not overtake a caller that queued while dialing (it would take its slot)
+	mk("equal-limits-late-waits-for-early-1", 1, 1, res(0), st(0), dial(true), bg(1), rr(0), fin(0, true), res(2), fin(1, true))
+	mk("equal-limits-late-waits-for-early-2", 2, 2, res(0), res(1), st(0), st(1), dial(true), rr(0), bg(2), rr(1), fin(0, true), fin(1, true), fin(2, true))
 	mk("late-waits-for-unstarted", 2, 4, res(0), dial(true), bg(1), wd(0), fin(1, true))
 	mk("dial-error-wakes-all", 3, 3, res(0), res(1), res(2), st(0), st(1), dial(false), st(2), res(3))
 	mk("close-while-dialing", 3, 3, res(0), res(1), st(0), st(1), cl, res(2), wd(1))
